@@ -32,7 +32,7 @@ def run(ctx):
     declared = lambda plat, s, d: s != d and not any(
         (r["s"] == plat.npi[s] and r["d"] == plat.npi[d]) or (r["sym"] and r["s"] == plat.npi[d] and r["d"] == plat.npi[s])
         for r in plat.nz[1]["rt"])
-    out = R.run_check(ctx, plats, chunk=4 if ctx.quick else 8,
+    out = R.run_check(ctx, plats, chunk=8,
                       nontrivial=declared,
                       rule="graphs = seeded random connected graphs (3..30 nodes, one-hop routes of 1..3 links, "
                            "symmetrical or one per direction), each built as Floyd, Dijkstra, DijkstraCache and Full zone; "
